@@ -169,7 +169,25 @@ type vcPick struct {
 	fresh bool
 }
 
+type vcGaStream struct {
+	id         uint32
+	req        int
+	doneBefore bool
+	attempts   int
+	sEnd       bool
+}
+
+type vcGaStep struct {
+	kind    string // "goaway" or "closeconn"
+	conn    *vcConn
+	last    uint32
+	code    uint32 // merged code
+	hadGA   bool
+	streams []vcGaStream
+}
+
 type vcCase struct {
+	ga     *vcGaStep
 	t      *testing.T
 	o      *vu.Out
 	mode   string
@@ -357,7 +375,7 @@ func (c *vcCase) settle() {
 		}
 		c.obsf("st:%d:%d:%s:%d:%d:%d", k.idx, st.Streams, res, st.PendingResets, st.Max, st.Next)
 		// the wire-level view can never be ahead of the client's own bookkeeping
-		if k.openCount() > st.Streams {
+		if !k.cclosed && !k.sclosed && k.openCount() > st.Streams {
 			c.o.Fail("", fmt.Sprintf("conn %d: %d streams are open on the wire but the client tracks only %d", k.idx, k.openCount(), st.Streams))
 		}
 	}
@@ -497,11 +515,58 @@ func vcExec(t *testing.T, mode string, ops []string, o *vu.Out) {
 			o.Op(base, "ok")
 			continue
 		}
+		if f[0] == "retryq" {
+			// canRetryError / shouldRetryRequest on the real functions (differential tie)
+			if len(f) != 3 {
+				o.Op(op, "bad-op")
+				continue
+			}
+			var req *http.Request
+			switch f[1] {
+			case "0":
+				req = Must(http.NewRequest("GET", "https://dummy.tld/", nil))
+			case "1", "2":
+				req = Must(http.NewRequest("POST", "https://dummy.tld/", &vcBody{end: make(chan struct{}), closed: make(chan struct{})}))
+				if f[1] == "2" {
+					req.GetBody = func() (io.ReadCloser, error) {
+						return &vcBody{end: make(chan struct{}), closed: make(chan struct{})}, nil
+					}
+				}
+			case "3":
+				req = Must(http.NewRequest("POST", "https://dummy.tld/", http.NoBody))
+			}
+			var err error
+			switch f[2] {
+			case "gotgoaway":
+				err = VerifErrGotGoAway
+			case "unusable":
+				err = VerifErrUnusable
+			case "refused":
+				err = StreamError{StreamID: 1, Code: ErrCodeRefusedStream}
+			case "rstcancel":
+				err = StreamError{StreamID: 1, Code: ErrCodeCancel}
+			case "goawayconn":
+				err = GoAwayError{LastStreamID: 1, ErrCode: ErrCodeNo}
+			case "notestablished":
+				err = VerifErrNotEstablished
+			case "eof":
+				err = io.ErrUnexpectedEOF
+			}
+			if req == nil || err == nil {
+				o.Op(op, "bad-op")
+				continue
+			}
+			b := map[bool]int{false: 0, true: 1}
+			o.Stat("op:retryq")
+			o.Op(base, fmt.Sprintf("ok %d %d", b[VerifCanRetryError(err)], b[VerifShouldRetry(req, err)]))
+			continue
+		}
 		if c == nil {
 			o.Op(base, "ok")
 			continue
 		}
 		c.obs = nil
+		c.ga = nil
 		skip := func() { c.obsf("skip") }
 		valid := true
 		o.Stat("op:" + f[0])
@@ -720,14 +785,13 @@ func vcExec(t *testing.T, mode string, ops []string, o *vu.Out) {
 					skip()
 					return
 				}
-				k.tc.writeGoAway(uint32(last), ErrCode(code), nil)
-				if !k.goaway {
-					k.gaCode = uint32(code)
-				} else if k.gaCode == 0 {
+				if !k.goaway || k.gaCode == 0 {
 					k.gaCode = uint32(code)
 				}
 				k.goaway = true
 				k.gaLast = uint32(last)
+				c.ga = c.gaSnapshot("goaway", k)
+				k.tc.writeGoAway(uint32(last), ErrCode(code), nil)
 			case "closeconn":
 				if len(f) != 2 {
 					valid = false
@@ -739,6 +803,7 @@ func vcExec(t *testing.T, mode string, ops []string, o *vu.Out) {
 					return
 				}
 				k.sclosed = true
+				c.ga = c.gaSnapshot("closeconn", k)
 				k.tc.closeWrite()
 			case "tick":
 				if len(f) != 1 {
@@ -797,13 +862,297 @@ func vcExec(t *testing.T, mode string, ops []string, o *vu.Out) {
 	}
 }
 
-// goAwayOracle states C18 on the implementation after every step (filled in below).
-func (c *vcCase) goAwayOracle(step string) {}
+func (c *vcCase) gaSnapshot(kind string, k *vcConn) *vcGaStep {
+	g := &vcGaStep{kind: kind, conn: k, last: k.gaLast, code: k.gaCode, hadGA: k.goaway}
+	for _, id := range k.order {
+		s := k.streams[id]
+		if !s.open() {
+			continue
+		}
+		gs := vcGaStream{id: id, req: s.req, sEnd: s.sEnd}
+		if r := c.reqs[s.req]; r != nil {
+			gs.doneBefore = r.done
+			gs.attempts = len(r.attempts)
+		}
+		g.streams = append(g.streams, gs)
+	}
+	return g
+}
+
+// goAwayOracle states C18 on the implementation after a GOAWAY / connection-close step.
+func (c *vcCase) goAwayOracle(step string) {
+	g := c.ga
+	if g == nil {
+		return
+	}
+	k := g.conn
+	for _, gs := range g.streams {
+		s := k.streams[gs.id]
+		r := c.reqs[gs.req]
+		if r == nil {
+			continue
+		}
+		newAttempt := len(r.attempts) > gs.attempts
+		if g.kind == "closeconn" {
+			// in-flight requests fail with the connection's error; nothing is replayed
+			if gs.sEnd {
+				c.o.Stat("close:peer-had-ended")
+				continue
+			}
+			if !gs.doneBefore && !r.canceled {
+				want := "ueof"
+				if g.hadGA {
+					want = "goawayconn"
+				}
+				if !r.done || r.result != want {
+					c.o.Fail("", fmt.Sprintf("%q: request %d (stream %d) was in flight when the connection closed; result %q, want %q", step, gs.req, gs.id, r.result, want))
+				}
+				c.o.Stat("close:inflight-" + want)
+			}
+			if newAttempt {
+				c.o.Fail("", fmt.Sprintf("%q: request %d was replayed after a connection error", step, gs.req))
+			}
+			continue
+		}
+		if gs.id <= g.last {
+			// the server has seen it: left alone
+			c.o.Stat("goaway:keep")
+			if s.reset {
+				c.o.Fail("", fmt.Sprintf("%q: stream %d <= last-stream-id %d was reset by the client", step, gs.id, g.last))
+			}
+			if !gs.doneBefore && r.done && !r.canceled {
+				c.o.Fail("", fmt.Sprintf("%q: request %d on stream %d <= last-stream-id %d failed with %q", step, gs.req, gs.id, g.last, r.result))
+			}
+			if newAttempt {
+				c.o.Fail("", fmt.Sprintf("%q: request %d on stream %d <= last-stream-id %d was sent again", step, gs.req, gs.id, g.last))
+			}
+			continue
+		}
+		// id > last: the server has not processed it
+		if !s.reset {
+			c.o.Fail("", fmt.Sprintf("%q: stream %d > last-stream-id %d was not abandoned", step, gs.id, g.last))
+		}
+		if gs.doneBefore || r.canceled {
+			c.o.Stat("goaway:abort-after-return")
+			if newAttempt {
+				c.o.Fail("", fmt.Sprintf("%q: request %d had already returned but was sent again", step, gs.req))
+			}
+			continue
+		}
+		switch {
+		case gs.id == 1 && g.code != 0:
+			c.o.Stat("goaway:first-stream-error")
+			if r.done && r.result == "goawayfirst" && !newAttempt {
+				c.o.Fail(sigFirstStreamGoAway, fmt.Sprintf("%q: stream 1 > last-stream-id %d with error code %d: the request fails with a non-retryable error instead of being retried (by design: setGoAway does not retry the first stream of a connection on a non-NO error)", step, g.last, g.code))
+			} else {
+				c.o.Fail("", fmt.Sprintf("%q: request %d on stream 1 with GOAWAY code %d: result %q, replayed=%v", step, gs.req, g.code, r.result, newAttempt))
+			}
+		case r.kind == 1:
+			c.o.Stat("goaway:not-replayable")
+			if !(r.done && r.result == "noreplay") || newAttempt {
+				c.o.Fail("", fmt.Sprintf("%q: request %d (body without GetBody) on stream %d > %d: result %q, replayed=%v; want the cannot-retry error and no replay", step, gs.req, gs.id, g.last, r.result, newAttempt))
+			}
+		default:
+			c.o.Stat("goaway:retried")
+			if !newAttempt {
+				c.o.Fail("", fmt.Sprintf("%q: request %d on stream %d > last-stream-id %d was dropped (result %q, no new attempt)", step, gs.req, gs.id, g.last, r.result))
+			} else if a := r.attempts[len(r.attempts)-1]; a.conn == k.idx {
+				c.o.Fail("", fmt.Sprintf("%q: request %d was retried on the same connection %d", step, gs.req, k.idx))
+			} else if len(r.attempts) > gs.attempts+1 {
+				c.o.Fail("", fmt.Sprintf("%q: request %d was sent %d more times after one GOAWAY", step, gs.req, len(r.attempts)-gs.attempts))
+			}
+			if r.done && (r.result == "gotgoaway" || r.result == "noreplay" || r.result == "goawayfirst") {
+				c.o.Fail("", fmt.Sprintf("%q: replayable request %d failed with %q", step, gs.req, r.result))
+			}
+		}
+	}
+}
 
 // ---------------------------------------------------------------- generator
 
 func vcGen(r *vu.Rng, i int, mode string) []string {
+	if mode == "c18" {
+		return vcGen18(r, i)
+	}
 	return vcGen17(r, i)
+}
+
+// vcGen18: GOAWAY at every position relative to in-flight requests, every last-stream-id
+// around the open streams, graceful and error codes, the three body kinds.
+func vcGen18(r *vu.Rng, i int) []string {
+	var ops []string
+	emit := func(format string, a ...any) { ops = append(ops, fmt.Sprintf(format, a...)) }
+	if i%10 == 0 {
+		// the pure functions
+		for k := 0; k < 8; k++ {
+			emit("retryq %d %s", r.Intn(4), []string{"gotgoaway", "unusable", "refused", "rstcancel", "goawayconn", "notestablished", "eof"}[r.Intn(7)])
+		}
+		return ops
+	}
+	strict := r.Chance(1, 4)
+	emit("reset %d", map[bool]int{false: 0, true: 1}[strict])
+	type gs struct {
+		conn, id, req int
+		resp, sEnd    bool
+		gone          bool
+	}
+	type gconn struct {
+		greeted, dead bool
+		next          int
+		streams       []*gs
+	}
+	var conns []*gconn
+	nreq := 0
+	goaways := 0
+	kindOf := map[int]int{}
+	place := func(rq int) {
+		for ci, c := range conns {
+			if !c.dead {
+				c.streams = append(c.streams, &gs{conn: ci, id: c.next, req: rq})
+				c.next += 2
+				return
+			}
+		}
+		c := &gconn{next: 3}
+		c.streams = append(c.streams, &gs{conn: len(conns), id: 1, req: rq})
+		conns = append(conns, c)
+	}
+	newReq := func() {
+		kind := 0
+		switch r.Intn(5) {
+		case 0:
+			kind = 1
+		case 1, 2:
+			kind = 2
+		}
+		kindOf[nreq] = kind
+		emit("req %d %d", nreq, kind)
+		place(nreq)
+		nreq++
+	}
+	codes := []int{0, 0, 0, 1, 2, 11}
+	steps := r.Range(4, 26)
+	newReq()
+	for j := 0; j < steps; j++ {
+		for ci, c := range conns {
+			if !c.greeted && r.Chance(4, 5) {
+				m := -1
+				if r.Chance(1, 3) {
+					m = r.Range(1, 4)
+				}
+				emit("greet %d %d", ci, m)
+				c.greeted = true
+			}
+		}
+		switch k := r.Intn(100); {
+		case k < 28:
+			if nreq < 10 {
+				newReq()
+			}
+		case k < 46:
+			var all []*gs
+			for _, c := range conns {
+				for _, s := range c.streams {
+					if !s.gone {
+						all = append(all, s)
+					}
+				}
+			}
+			if len(all) > 0 {
+				s := all[r.Intn(len(all))]
+				if !s.resp {
+					es := r.Chance(1, 2)
+					emit("resp %d %d %d", s.conn, s.id, map[bool]int{false: 0, true: 1}[es])
+					s.resp, s.sEnd = true, es
+				} else {
+					emit("sdata %d %d", s.conn, s.id)
+					s.sEnd = true
+				}
+				if s.sEnd && kindOf[s.req] == 0 {
+					s.gone = true
+				}
+			}
+		case k < 72: // GOAWAY
+			if len(conns) > 0 && goaways < 5 {
+				ci := r.Intn(len(conns))
+				c := conns[ci]
+				if c.dead && r.Chance(2, 3) {
+					for x, cc := range conns {
+						if !cc.dead {
+							ci, c = x, cc
+						}
+					}
+				}
+				if !c.greeted {
+					emit("greet %d -1", ci)
+					c.greeted = true
+				}
+				// last-stream-id: around the streams of the connection
+				last := 0
+				switch r.Intn(6) {
+				case 0:
+					last = 0
+				case 1:
+					last = c.next - 2 // everything opened so far
+				case 2:
+					last = 1<<31 - 1
+				default:
+					last = r.Intn(c.next + 2)
+				}
+				code := codes[r.Intn(len(codes))]
+				emit("goaway %d %d %d", ci, last, code)
+				goaways++
+				c.dead = true
+				for _, s := range c.streams {
+					if !s.gone && s.id > last {
+						s.gone = true
+						if kindOf[s.req] != 1 && !(s.id == 1 && code != 0) && !s.resp {
+							place(s.req)
+						}
+					}
+				}
+			}
+		case k < 78:
+			if len(conns) > 0 {
+				ci := r.Intn(len(conns))
+				emit("closeconn %d", ci)
+				conns[ci].dead = true
+				for _, s := range conns[ci].streams {
+					s.gone = true
+				}
+			}
+		case k < 84:
+			if nreq > 0 {
+				emit("cancel %d", r.Intn(nreq))
+			}
+		case k < 90:
+			if nreq > 0 {
+				emit("bodyend %d", r.Intn(nreq))
+			}
+		case k < 95:
+			if nreq > 0 {
+				emit("readbody %d", r.Intn(nreq))
+			}
+		case k < 97:
+			if len(conns) > 0 {
+				ci := r.Intn(len(conns))
+				if conns[ci].greeted {
+					emit("set %d %d", ci, r.Range(0, 3))
+				}
+			}
+		default:
+			var all []*gs
+			for _, c := range conns {
+				all = append(all, c.streams...)
+			}
+			if len(all) > 0 {
+				s := all[r.Intn(len(all))]
+				emit("srst %d %d %d", s.conn, s.id, []int{2, 8}[r.Intn(2)])
+				s.gone = true
+			}
+		}
+	}
+	return ops
 }
 
 type g17stream struct {
